@@ -10,7 +10,6 @@ import (
 	"verifharness/world"
 )
 
-func sp(s string) *string { return &s }
 
 func TestSmoke(t *testing.T) {
 	objs := []*world.Obj{
